@@ -62,6 +62,8 @@ func (ss *styleSet) level(l int) pr.ElementStyle {
 		return ss.sf.Get(pageType, "")
 	case lvMargin:
 		return ss.sf.Get(pageType, "@top-left")
+	case lvRootBefore:
+		return ss.sf.Get(ss.nodes["html"], "before")
 	}
 	return nil
 }
@@ -145,7 +147,9 @@ func (c *check) sweep(s *spec, src string, eng string, backward bool) (el, other
 	return el, other
 }
 
-func isPseudo(level int) bool { return level == lvBefore || level == lvMarker || level == lvMargin }
+func isPseudo(level int) bool {
+	return level == lvBefore || level == lvMarker || level == lvMargin || level == lvRootBefore
+}
 
 // obsName is the name of the property whose value is observed for p.
 func (p *propInfo) obsName() string {
